@@ -343,3 +343,60 @@ def gen_program(rng, maxd=3, nsteps=None, pulses5=True):
             ops.append(['reorder', o])
         ops.append(integ())
     return ops, d
+
+
+def normalize_program(ops):
+    """the same model with the populations kept in creation order: reorder_pops calls are dropped, the arguments of the
+    later calls permuted accordingly, and one reorder at the end restores the order the program ends with"""
+    out = []
+    pos = []            # pos[i] = physical axis of the program's (virtual) population i
+    for op in ops:
+        k = op[0]
+        d = len(pos)
+        if k == 'phi_1D':
+            pos = [0]; out.append(list(op))
+        elif k == 'integrate':
+            T, sfs, M, fr = op[1], op[2], op[3], op[4]
+            sp = [None] * d
+            for i in range(d):
+                sp[pos[i]] = sfs[i]
+            Mp = None
+            if M is not None:
+                Mp = [[0.0] * d for _ in range(d)]
+                for i in range(d):
+                    for j in range(d):
+                        Mp[pos[i]][pos[j]] = M[i][j]
+            fp = None
+            if fr is not None:
+                fp = [None] * d
+                for i in range(d):
+                    fp[pos[i]] = fr[i]
+            out.append(['integrate', T, sp, Mp, fp])
+        elif k == 'split':
+            out.append(['split', pos[op[1] - 1] + 1]); pos.append(d)
+        elif k == 'admix_new':
+            full = list(op[1]) + [1 - sum(op[1])]
+            fp = [None] * d
+            for i in range(d):
+                fp[pos[i]] = full[i]
+            out.append(['admix_new', fp[:-1]]); pos.append(d)
+        elif k == 'pulse':
+            dest = op[1] - 1
+            fv = {}
+            src = [i for i in range(d) if i != dest]
+            for i, f in zip(src, op[2]):
+                fv[pos[i]] = f
+            pd = pos[dest]
+            out.append(['pulse', pd + 1, [fv[j] for j in range(d) if j != pd]])
+        elif k == 'remove':
+            p_ = pos[op[1] - 1]
+            out.append(['remove', p_ + 1])
+            del pos[op[1] - 1]
+            pos = [x - 1 if x > p_ else x for x in pos]
+        elif k == 'reorder':
+            pos = [pos[o - 1] for o in op[1]]
+        else:
+            raise ValueError(op)
+    if pos != list(range(len(pos))):
+        out.append(['reorder', [x + 1 for x in pos]])
+    return out
